@@ -342,11 +342,13 @@ impl<'a> Sweep<'a> {
         rebuild
     }
 
-    fn sweep_scenario(&mut self, scn: Scn, thorough: bool, cross: &[(Proto, String, ckb_network::bytes::Bytes)]) {
+    /// `part` 0: single-message mutants of the pending answers; 1: two-message sequences and the
+    /// cross alphabet (work splitting).
+    fn sweep_scenario(&mut self, scn: Scn, thorough: bool, cross: &[(Proto, String, ckb_network::bytes::Bytes)], part: usize) {
         let (mut sim, n_home) = build(self.env, self.w, scn);
         let homes: Vec<InFlight> = sim.queue.iter().take(n_home).cloned().collect();
         let mut before = sim.c().light_print();
-        self.report.count("scenarios", 1);
+        self.report.count("scenarios", if part == 0 { 1 } else { 0 });
         macro_rules! go {
             ($proto:expr, $peer:expr, $data:expr, $label:expr) => {{
                 crate::verif::props::shard::journal($label);
@@ -364,7 +366,7 @@ impl<'a> Sweep<'a> {
                 }
             }};
         }
-        for home in &homes {
+        for home in homes.iter().filter(|_| part == 0) {
             let kind = kind_of(home);
             self.report.count(&format!("home/{:?}/{}", scn, kind), 1);
             // the honest message itself is NOT delivered here (it would advance the history);
@@ -394,9 +396,68 @@ impl<'a> Sweep<'a> {
                 }
             }
         }
+        // two-message sequences: a variant of the pending answer followed by the honest answer, by
+        // itself again, or by a variant of another length (thorough: by every variant). A handler
+        // may trust what an earlier message of the same peer left behind.
+        for home in homes.iter().filter(|_| part == 1) {
+            let mut variants: Vec<Mutant> = vec![Mutant { label: "honest".to_owned(), data: home.data.clone() }];
+            variants.extend(mutate::structural(&home.proto, &home.data));
+            for (i, v1) in variants.iter().enumerate() {
+                for (j, v2) in variants.iter().enumerate() {
+                    if i == 0 && j == 0 {
+                        continue;
+                    }
+                    let second_ok = thorough
+                        || j == 0
+                        || j == i
+                        || ["drop-last", "doubled", "first-only", "dup-first", "empty"].iter().any(|k| v2.label.contains(k));
+                    if !second_ok {
+                        continue;
+                    }
+                    let label = format!("seq:{} -> {}", v1.label, v2.label);
+                    crate::verif::props::shard::journal(&label);
+                    self.report.count("two_message_sequences", 1);
+                    self.deliveries += 2;
+                    let p = PeerIndex::new(home.peer);
+                    let r = panics::catch(|| {
+                        for d in [&v1.data, &v2.data] {
+                            let c = sim.cm();
+                            match home.proto {
+                                Proto::LightClient => c.recv_lc(p, d.clone()),
+                                Proto::Filter => c.recv_filter(p, d.clone()),
+                                Proto::Sync => c.recv_sync(p, d.clone()),
+                                Proto::Relay => c.recv_relay(p, d.clone()),
+                            }
+                        }
+                        sim.advance(10);
+                        sim.tick_all();
+                    });
+                    let panicked = r.is_err();
+                    if let Err(pr) = r {
+                        if pr.msg.contains("long fork detected") {
+                            self.report.count("documented_long_fork_panics", 1);
+                        } else {
+                            self.panics_seen += 1;
+                            *self.sites.entry(pr.site()).or_insert(0) += 1;
+                            self.report.violation(
+                                format!("abort/{}", pr.site()),
+                                format!("{} [scenario {:?}, two {:?} messages from peer {}: {}]", pr.describe(), scn, home.proto, home.peer, label),
+                                json!({"scenario": format!("{:?}", scn), "protocol": format!("{:?}", home.proto), "peer": home.peer, "sequence": label, "first_hex": hex(&v1.data[..v1.data.len().min(2048)]), "second_hex": hex(&v2.data[..v2.data.len().min(2048)])}),
+                            );
+                        }
+                    }
+                    let _ = sim.c().out.take_sent();
+                    self.bans += sim.c().out.take_bans().len() as u64;
+                    self.rebuilds += 1;
+                    let (s2, _) = if panicked { build(self.env, self.w, scn) } else { build_on(self.env, self.w, scn, Some(sim)) };
+                    sim = s2;
+                    before = sim.c().light_print();
+                }
+            }
+        }
         // every honest message / structural mutant / bare variant of the whole alphabet in this
         // state, from the known peer and from a peer the client never connected
-        for (proto, label, data) in cross {
+        for (proto, label, data) in cross.iter().filter(|_| part == 1) {
             for peer in [1usize, 7] {
                 let l = format!("cross:{}", label);
                 go!(proto, peer, data.clone(), &l);
@@ -412,8 +473,10 @@ pub(crate) fn run(opts: &Opts, report: &mut Report) {
     } else {
         vec!["mini_dummy.toml"]
     };
-    let items = specs.len() * ALL_SCN.len();
+    let items = specs.len() * ALL_SCN.len() * 2;
     let worker = crate::verif::props::shard::run("C10", opts, report, items, 16, |item, report| {
+        let part = item % 2;
+        let item = item / 2;
         let env = Env::new(specs[item / ALL_SCN.len()]);
         let scn = ALL_SCN[item % ALL_SCN.len()];
         let w = worlds(&env);
@@ -440,7 +503,7 @@ pub(crate) fn run(opts: &Opts, report: &mut Report) {
                 cross.push((proto.clone(), format!("junk{}", i), junk.into()));
             }
         }
-        report.count("cross_alphabet_size_x_scenarios", cross.len() as u64);
+        report.count("cross_alphabet_size_x_scenarios", if part == 1 { cross.len() as u64 } else { 0 });
         let mut sweep = Sweep {
             env: &env,
             w: &w,
@@ -453,7 +516,7 @@ pub(crate) fn run(opts: &Opts, report: &mut Report) {
             sites: BTreeMap::new(),
             last_panicked: false,
         };
-        sweep.sweep_scenario(scn, thorough, &cross);
+        sweep.sweep_scenario(scn, thorough, &cross, part);
         let (d, r, p, c, b) = (sweep.deliveries, sweep.rebuilds, sweep.panics_seen, sweep.state_changes, sweep.bans);
         let sites = std::mem::take(&mut sweep.sites);
         drop(sweep);
@@ -462,7 +525,7 @@ pub(crate) fn run(opts: &Opts, report: &mut Report) {
         report.count("panics", p);
         report.count("deliveries_that_changed_state", c);
         report.count("bans", b);
-        report.count("states", 1);
+        report.count("states", if part == 0 { 1 } else { 0 });
         for (k, v) in sites {
             report.count(&format!("panic_site/{}", k), v);
         }
@@ -472,7 +535,7 @@ pub(crate) fn run(opts: &Opts, report: &mut Report) {
     }
     // a worker that died took the process down with it: that is exactly what C10 forbids
     for (item, why) in crate::verif::props::shard::DEAD.lock().unwrap().iter() {
-        let scn = ALL_SCN[item % ALL_SCN.len()];
+        let scn = ALL_SCN[(item / 2) % ALL_SCN.len()];
         report.violation(
             format!("process-abort/{:?}", scn),
             format!("the worker process for scenario {:?} died: {}", scn, why),
